@@ -15,6 +15,8 @@ decoder Dec and compares (total verdict; expressions using opcodes outside the t
 
 Python knows: how to turn a digit string / group string into an int (denote), and how the library spells
 a parsed operation (namedtuple with op, op_name, args, offset; blocks as sequences of ints)."""
+import json
+import multiprocessing
 import os
 
 from . import core
@@ -41,7 +43,7 @@ def _want(x):
         for a in (args or []):
             if 'e' in a:
                 sub = _want(a['e'])
-                a2.append(('e', sub) if sub else ('z',))
+                a2.append(('e', sub, a['n']) if sub else ('z',))
             elif 'b' in a:
                 b = list(a['b'] or [])
                 a2.append(('b', b) if b else ('z',))
@@ -89,7 +91,7 @@ def _diff(want, got):
             if wa[0] == 'e' and ga[0] == 'e':
                 d = _diff(wa[1], ga[1])
                 if d:
-                    return ('nested.' + d[0], d[1])
+                    return (d[0] if d[0].startswith('nested.') else 'nested.' + d[0], d[1])
             elif wa != ga:
                 return ('args', w[1])
         if w[3] != g[3]:
@@ -127,11 +129,17 @@ def _parse(parser, data):
 
 
 def _blame(parser, data, want):
-    """Which expected top-level operation is the first one the parser cannot get past (only on failure)."""
+    """Which expected operation is the first one the parser cannot get past (only on failure); descends
+    into entry-value blocks (their byte length comes from the spec: the block is the tail of its operation)."""
     for i, w in enumerate(want):
         end = want[i + 1][3] if i + 1 < len(want) else len(data)
         got = _parse(parser, data[:end])
         if isinstance(got, dict) or _diff(want[:i + 1], got):
+            for a in w[2]:
+                if a[0] == 'e':
+                    inner = _parse(parser, data[end - a[2]:end])
+                    if isinstance(inner, dict) or _diff(a[1], inner):
+                        return _blame(parser, data[end - a[2]:end], a[1])
             return w[1]
     return want[-1][1] if want else 'empty'
 
@@ -158,49 +166,180 @@ def _check_names(run, tab):
             run.mismatch('names.bijective', 'op_0x%02x' % code, {'opcode': code}, 'one name', sorted(names))
 
 
-def _replay(run, res, parsers, seen, stats):
-    for n, case in enumerate(run.cases(res.out)):
-        if case['t'] == 'table':
-            if not stats.get('table'):
-                stats['table'] = True
-                _check_names(run, case['tab'])
-            continue
-        asz, osz, le = case['c']
-        data = bytes(case['b'] or [])
-        key = '%d%d%d:%s' % (asz, osz, le, data.hex())
-        if key in seen:          # exhaustive states are distinct by construction; simulated ones may repeat
-            continue
+def _one(case, n, parsers, seen, out):
+    """Replay one emitted case; results go to the accumulator `out` (a plain dict: it crosses processes)."""
+    asz, osz, le = case['c']
+    data = bytes(case['b'] or [])
+    if seen is not None:          # simulated cases may repeat; exhaustive states are distinct by construction
+        key = (asz, osz, le, data)
+        if key in seen:
+            return
         seen.add(key)
-        want = _want(case['x'])
-        ver = VERSIONS[n % 3]
-        parser = parsers.get(asz, osz, le, ver)
-        got = _parse(parser, data)
-        stats[case['t']] = stats.get(case['t'], 0) + 1
-        small = {'ctx': case['c'], 'bytes': list(data) if len(data) <= 64 else core.b64(data), 'kind': case['t']}
-        run.count(key, nontrivial=bool(want),
-                  sample=({'ctx': case['c'], 'bytes': list(data), 'expect': case['x']}
-                          if (3 <= len(data) <= 24 and n % 4999 == 17) else None))
-        if isinstance(got, dict):
-            run.mismatch('raises.' + got['exc'], _blame(parser, data, want), small, want, got)
-            continue
+    want = _want(case['x'])
+    ver = VERSIONS[n % 3]
+    parser = parsers.get(asz, osz, le, ver)
+    got = _parse(parser, data)
+    out['n'] += 1
+    out['nt'] += 1 if want else 0
+    out['stats'][case['t']] = out['stats'].get(case['t'], 0) + 1
+    if len(out['samples']) < 4 and 3 <= len(data) <= 24 and n % 4999 == 17:
+        out['samples'].append({'ctx': case['c'], 'bytes': list(data), 'expect': case['x']})
+    small = {'ctx': case['c'], 'bytes': list(data) if len(data) <= 64 else core.b64(data), 'kind': case['t']}
+    mm = None
+    if isinstance(got, dict):
+        mm = ('raises.' + got['exc'], _blame(parser, data, want))
+    else:
         d = _diff(want, got)
         if d:
-            run.mismatch(d[0], d[1], small, want, got)
+            mm = d
+        else:
+            out['ok'] += 1
+            if n % 97 == 0:
+                # the parser is stateless: a fresh parser object and a second call on the shared one agree
+                again = _parse(parser, data)
+                fresh = _parse(parsers.get(asz, osz, le, ver, fresh=True), data)
+                if again != got or fresh != got:
+                    mm = ('stateless', want[0][1] if want else 'empty')
+                    got = [again, fresh]
+    if mm:
+        out['mmcount'][mm] = out['mmcount'].get(mm, 0) + 1
+        if out['mmcount'][mm] <= 5:
+            out['mm'].append((mm[0], mm[1], small, want, got))
+
+
+def _acc():
+    return {'n': 0, 'nt': 0, 'ok': 0, 'stats': {}, 'samples': [], 'mm': [], 'mmcount': {}, 'table': None, 'lines': 0}
+
+
+def _slice(args):
+    """Worker: the cases whose line starts in [start, end) of the emitted file."""
+    path, start, end = args
+    out = _acc()
+    parsers = _Parsers()
+    with open(path, 'rb') as f:
+        if start:
+            f.seek(start - 1)
+            f.readline()
+        while f.tell() < end:
+            pos = f.tell()
+            line = f.readline()
+            if not line:
+                break
+            line = line.strip()
+            if not line:
+                continue
+            out['lines'] += 1
+            v = json.loads(line)
+            if isinstance(v, str):
+                v = json.loads(v)
+            if v['t'] == 'table':
+                out['table'] = v['tab']
+                continue
+            _one(v, pos, parsers, None, out)
+    return out
+
+
+def _merge(run, out, stats, base):
+    run.evaluations += out['n']
+    run.validated += out['ok']
+    run.nontrivial |= set(range(base, base + out['nt']))       # distinct by construction, see run.rule
+    for k, v in out['stats'].items():
+        stats[k] = stats.get(k, 0) + v
+    for smp in out['samples']:
+        if len(run.samples) < 4:
+            run.samples.append(core.jnorm(smp))
+    given = {}
+    for clause, tag, small, want, got in out['mm']:
+        run.mismatch(clause, tag, small, want, got)
+        given[(clause, tag)] = given.get((clause, tag), 0) + 1
+    for (clause, tag), cnt in out['mmcount'].items():
+        for _ in range(cnt - given.get((clause, tag), 0)):
+            run.mismatch(clause, tag, {}, None, None)
+    return base + out['nt']
+
+
+def _replay_grid(run, res, stats, base):
+    """Exhaustive cases: replayed in parallel slices of the emitted file (the library's nested-expression
+    parser rebuilds its dispatch table per block, ~0.3 ms: the replay, not TLC, is the slow part)."""
+    size = os.path.getsize(res.out)
+    k = max(1, min(core.NPROC, size // 200000))
+    bounds = [size * i // k for i in range(k + 1)]
+    jobs = [(res.out, bounds[i], bounds[i + 1]) for i in range(k)]
+    if k == 1:
+        outs = [_slice(jobs[0])]
+    else:
+        with multiprocessing.get_context('fork').Pool(k) as pool:
+            outs = pool.map(_slice, jobs)
+    total = 0
+    with open(res.out, 'rb') as f:
+        for line in f:
+            total += 1 if line.strip() else 0
+    if sum(o['lines'] for o in outs) != total:
+        raise core.MachineryError('replay slices covered %d of %d emitted cases' % (sum(o['lines'] for o in outs), total))
+    tab = next((o['table'] for o in outs if o['table']), None)
+    if tab is None:
+        raise core.MachineryError('the name table was not emitted')
+    _check_names(run, tab)
+    for o in outs:
+        base = _merge(run, o, stats, base)
+    return base
+
+
+def _replay_sim(run, res, stats, base, seen):
+    out = _acc()
+    parsers = _Parsers()
+    for n, case in enumerate(run.cases(res.out)):
+        if case['t'] != 'table':
+            _one(case, n * 4999 + 17, parsers, seen, out)
+    return _merge(run, out, stats, base)
+
+
+# ------------------------------------------------------------------------------------------------
+# replay of a recorded mismatch (./check C12 --replay replays/C12/<file>.json)
+# ------------------------------------------------------------------------------------------------
+def _unj(want):
+    """Expected value as stored in a replay file (tuples became lists) -> comparable form."""
+    out = []
+    for code, name, args, off in want:
+        a2 = []
+        for a in args:
+            a2.append(('e', _unj(a[1]), a[2]) if a[0] == 'e' else tuple(a))
+        out.append([code, name, a2, off])
+    return out
+
+
+def replay(run, path):
+    import base64
+    rec = json.load(open(path))
+    parsers = _Parsers()
+    for mm in [rec['first']] + rec.get('more', []):
+        c = mm['case']
+        if not c or 'ctx' not in c or 'file' in c or mm['clause'].startswith('names.'):
+            print('not a byte-level case (name table / corpus trace): run ./check C12')
             continue
-        run.validated += 1
-        if n % 97 == 0:
-            # the parser is stateless: a fresh parser object and a second call on the shared one agree
-            again = _parse(parser, data)
-            fresh = _parse(parsers.get(asz, osz, le, ver, fresh=True), data)
-            if again != got or fresh != got:
-                run.mismatch('stateless', want[0][1] if want else 'empty', small, got, [again, fresh])
+        data = bytes(c['bytes']) if isinstance(c['bytes'], list) else base64.b64decode(c['bytes'])
+        want = _unj(mm['expected'])
+        asz, osz, le = c['ctx']
+        for ver in VERSIONS:
+            got = _parse(parsers.get(asz, osz, le, ver), data)
+            run.count('%r:%s:%d' % (c['ctx'], data.hex(), ver), nontrivial=bool(want))
+            if isinstance(got, dict):
+                run.mismatch('raises.' + got['exc'], _blame(parsers.get(asz, osz, le, ver), data, want), c, want, got)
+            else:
+                d = _diff(want, got)
+                if d:
+                    run.mismatch(d[0], d[1], c, want, got)
+                else:
+                    run.validated += 1
+    return run.finish()
 
 
 def check(run):
-    parsers = _Parsers()
     quick = run.tier == 'quick'
     run.rule = ('G: one case per finished state of spec/Expr.tla = (address size, offset size, byte order, bytes of an '
-                'abstract expression); non-trivial = the expression has at least one operation; distinct by (context, bytes). '
+                'abstract expression); non-trivial = the expression has at least one operation; distinct by (context, bytes): '
+                'exhaustive states are distinct (context, expression) pairs and Enc is injective (RoundTrip), simulated '
+                'cases are deduplicated. '
                 'T: one case per distinct (context, bytes) location expression recorded from corpus DIEs; non-trivial = '
                 'non-empty and inside the spec table. Name-table rows count as one case each.')
     run.assumptions += [
@@ -209,16 +348,15 @@ def check(run):
         'LEB128 operands stay within 64 bits (<= 10 groups); block lengths < 2^28',
         'blocks are compared as sequences of ints whatever Python type carries them',
         'denote(): digit/group strings -> Python int is trusted']
-    seen = set()
     stats = {}
     # ---- G: exhaustive grid
     res = run.tlc('Expr', 'Expr_quick' if quick else 'Expr_thorough', timeout=3000)
-    _replay(run, res, parsers, seen, stats)
+    base = _replay_grid(run, res, stats, 0)
     # ---- G: long random expressions (seeded by VERIF_SEED)
-    res = run.tlc('Expr', 'Expr_sim', simulate=(40 if quick else 600), depth=(700 if quick else 2500), workers=1,
-                  timeout=3000)
+    res = run.tlc('Expr', 'Expr_sim' if quick else 'Expr_simlong', simulate=(40 if quick else 400),
+                  depth=(900 if quick else 2500), workers=1, timeout=3000)
     before = run.evaluations
-    _replay(run, res, parsers, seen, stats)
+    _replay_sim(run, res, stats, base, set())
     run.extra['simulated_cases'] = run.evaluations - before
     # ---- T: corpus location expressions against the spec's decoder
     _trace(run, stats, quick)
@@ -234,7 +372,7 @@ def check(run):
 CORPUS_QUICK = ['dwarf_gnuops1.o', 'arm_with_form_indirect.elf', 'simple_clang.elf.riscv', 'debug_info.elf',
                 'dwarf_llpair.elf', 'simple_gcc.elf.mips', 'simple_mipsel.elf', 'dwarfv5_basic.elf', 'lambda.elf',
                 'sample_exe64.elf']
-CORPUS_MORE = ['arm_exidx_test.elf', 'arm_exidx_test.o', 'note_tc3xxx_blinky.elf', 'dwarf_phantombytes.elf',
+CORPUS_MORE = ['dwarf_debug_types.elf', 'arm_exidx_test.elf', 'arm_exidx_test.o', 'note_tc3xxx_blinky.elf', 'dwarf_phantombytes.elf',
                'debuglink.debug', 'aranges_partial.elf', 'compressed_32.o', 'compressed_64.o', 'dwarf_v5_forms.debug',
                'dwarf_lineprog_data16.elf', 'gmtime_r.o.elf', 'pascalenum.o', 'test_debugsup1.debug',
                'test_gnudebugaltlink1.debug']
@@ -263,34 +401,52 @@ def _trace_ops(ops):
 
 
 def _record(path, limit):
-    """(ctx, bytes, parsed) for every expression-carrying attribute of every DIE of one file."""
+    """(ctx, bytes, parsed, where) for every expression of every DIE of one file: exprloc / (DWARF 2-3) block
+    attributes of location class, and the expressions of the location lists such attributes point to."""
     from elftools.elf.elffile import ELFFile
     from elftools.dwarf.dwarf_expr import DWARFExprParser
     from elftools.dwarf.locationlists import LocationParser
     out = []
+    skipped = 0
     with open(path, 'rb') as f:
         ef = ELFFile(f)
         if not ef.has_dwarf_info():
-            return out
+            return out, skipped
         dw = ef.get_dwarf_info()
+        ll = dw.location_lists()
+        lp = LocationParser(ll) if ll is not None else None
         for cu in dw.iter_CUs():
             st = cu.structs
             ver = cu['version']
             parser = DWARFExprParser(st)
             ctx = [st.address_size, 4 if st.dwarf_format == 32 else 8, 1 if st.little_endian else 0]
+
+            def add(data, where):
+                try:
+                    parsed = {'ok': True, 'ops': _trace_ops(parser.parse_expr(list(data)))}
+                except Exception as ex:
+                    parsed = {'ok': False, 'exc': type(ex).__name__}
+                out.append((ctx, bytes(data), parsed, where))
+
             for die in cu.iter_DIEs():
                 for at in die.attributes.values():
                     if at.form == 'DW_FORM_exprloc' or (at.form.startswith('DW_FORM_block') and
                                                         LocationParser.attribute_has_location(at, ver)):
-                        data = bytes(at.value)
+                        add(at.value, 'attr')
+                    elif lp is not None and LocationParser.attribute_has_location(at, ver):
                         try:
-                            parsed = {'ok': True, 'ops': _trace_ops(parser.parse_expr(list(data)))}
-                        except Exception as ex:
-                            parsed = {'ok': False, 'exc': type(ex).__name__}
-                        out.append((ctx, data, parsed))
-                        if len(out) >= limit:
-                            return out
-    return out
+                            lst = lp.parse_from_attribute(at, ver, die)
+                        except Exception:      # walking location lists is C07's business
+                            skipped += 1
+                            continue
+                        if isinstance(lst, list):
+                            for ent in lst:
+                                ex = getattr(ent, 'loc_expr', None)
+                                if ex is not None:
+                                    add(ex, 'loclist')
+                    if len(out) >= limit:
+                        return out, skipped
+    return out, skipped
 
 
 def _trace(run, stats, quick):
@@ -305,12 +461,15 @@ def _trace(run, stats, quick):
         if not os.path.exists(p):
             continue
         try:
-            recs = _record(p, 200000)
+            recs, skipped = _record(p, 200000)
+            if skipped:
+                run.notes.append('T: %s: %d location lists not walked (exception)' % (fn, skipped))
         except Exception as ex:         # a corpus file the library cannot walk is another property's business
             run.notes.append('T: %s not recorded (%s)' % (fn, type(ex).__name__))
             continue
         n0 = len(events)
-        for ctx, data, parsed in recs:
+        for ctx, data, parsed, where in recs:
+            stats['trace_' + where] = stats.get('trace_' + where, 0) + 1
             key = (tuple(ctx), data)
             if key in seen:
                 continue
